@@ -1,5 +1,9 @@
 from .. import deductive
+from ..contracts import dsproject as DP
 
 
 def run(tier):
-    return deductive.verify_module('domain', nproc=12)
+    reps = deductive.verify_module('domain', nproc=12)
+    for rel, q, c in DP.ITEMS:
+        reps.append(deductive.verify_function(rel, q, c, hooks=DP.hooks_for(c)))
+    return reps
